@@ -186,6 +186,7 @@ func c19CBurstRun(c c19CBurst) Outcome {
 	}
 	sc.SendWindowUpdate(0, 1<<24)
 	var calls []*speer.Call
+	initWin := uint32(65535)
 	for i, r := range c.Reqs {
 		calls = append(calls, env.Do(r))
 		if i < len(c.Sets) {
@@ -193,6 +194,15 @@ func c19CBurstRun(c c19CBurst) Outcome {
 			for _, x := range c.Sets[i] {
 				if x[0] == 1 || x[0] == 5 || x[0] == 6 {
 					kv = append(kv, x)
+				}
+				if x[0] == 4 {
+					// INITIAL_WINDOW_SIZE only ever grows here: uploads are in flight, and a reduction would make
+					// octets already on their way look like an overrun to the ledger. Growing it is enough to have
+					// the read loop rewrite the send windows while the write loop opens streams.
+					if d := x[1] % 50000; initWin+d < 1<<30 {
+						initWin += d
+					}
+					kv = append(kv, [2]uint32{4, initWin})
 				}
 			}
 			sc.SendSettings(kv)
